@@ -107,6 +107,17 @@ def generate_chunks(shape, dtype, max_chunk_size, dims_to_split=None,
     if max_dim_elements is None:
         max_dim_elements = {}
 
+    # Treat negative (NumPy-style) dimension indices the same as their
+    # non-negative equivalents, both in `dims_to_split` and in the keys of
+    # `max_dim_elements` (the strictest limit wins if a dimension has several).
+    ndim = len(shape)
+    dims_to_split = [dim + ndim if -ndim <= dim < 0 else dim for dim in dims_to_split]
+    limits = {}
+    for dim, limit in max_dim_elements.items():
+        dim = dim + ndim if -ndim <= dim < 0 else dim
+        limits[dim] = min(limit, limits.get(dim, limit))
+    max_dim_elements = limits
+
     dim_elements = list(shape)
     for i in dims_to_split:
         if i in max_dim_elements and max_dim_elements[i] < shape[i]:
